@@ -66,12 +66,14 @@ PROPS = {
     "C05": {"lean": CTLMOD, "prefixes": ["c05_", "c02_failed_detached", "c18_removed_silent", "ctl_reachable_inv"],
             "runs": [ctl("faults", 640, 30, 12000, 40, 14)], "modelled": CTL + [
                 "partial: that the detector fires (ping ticker, RPC deadline, TCP close) is runtime behaviour; the model takes 'the monitor fires' / 'the call returns an error' as events"]},
-    "C08": {"lean": ["JivaVerif.Properties.C12"], "prefixes": ["c12_reopen"], "level": "fault_enumeration",
+    "C08": {"lean": ["JivaVerif.Properties.C08", "JivaVerif.Properties.C12"], "prefixes": ["c08_", "c12_reopen", "recovers_untouched", "encode_effect"],
             "runs": [{"engine": "crashdiff", "profile": "all", "salt": 41, "workers": 16, "split": False,
                       "quick": {"n": 2, "len": 0, "timeout": 600}, "thorough": {"n": 24, "len": 0, "timeout": 6000}}],
-            "modelled": ["enumerated, not proved: for sampled pre-states and every management / data operation, EVERY boundary between two mutating file-system calls of the operation (strace, kill on entry of the call) and EVERY single failing call (ENOSPC, EIO) is exercised against the real replica code; the recovered directory is opened by the real code and compared with the state before and after",
+            "modelled": ["proved (Lean, Model/Crash.lean): the metadata protocol of snapshot creation, snapshot removal and revert as the sequence of file-system calls the code issues; for EVERY prefix of that sequence (process death at any call boundary) the directory recovers to the chain before or the chain after, every member keeping its inode; every other metadata change is one encodeToFile, whose every prefix leaves the old or the new content; each program ends with a directory flush",
+                         "tie of the call sequences: crashdiff renders the strace trace of the real operation (mutating calls, canonical names) and compares it, call by call, with the sequence `drv crash` prints for the same pre-state",
+                         "enumerated, not proved: for sampled pre-states and every management / data operation, EVERY boundary between two mutating file-system calls (strace, kill on entry of the call) and EVERY single failing call (ENOSPC, EIO) is exercised against the real replica code; the recovered directory is opened by the real code and compared with the state before and after — this is what covers the failing-call half of the property, the data path (an in-flight write may be partially applied, nothing else may change) and the revision-counter block",
                          "tie to the Lean replica model: the state after a completed operation and a reopen must be the one the model specifies (chain, attributes, counter, size, data)",
-                         "assumed: kernel atomicity of a single call (rename, link, unlink, O_SYNC write of a small record); power-loss reordering is out of scope (process death + the directory-flush lint)",
+                         "assumed: kernel atomicity of a single call (rename, link, unlink, O_SYNC write of a small record); power-loss reordering is out of scope (process death + the directory-flush check)",
                          "strace counts per tracee thread: the victim runs the operation on one locked OS thread with GOMAXPROCS=1"]},
     "C09": {"lean": CTLMOD, "prefixes": ["c09_", "maxRevCount_", "ctl_reachable_inv"],
             "runs": [ctl("election", 480, 30, 9000, 40, 15)], "modelled": CTL + [
